@@ -44,14 +44,43 @@ def sat_model(pc, extra=(), timeout_s=120):
     return c, (s.model() if c == z3.sat else None)
 
 
+CROSS = dict(asked=0, agreed=0, no_answer=0, disagreed=0)
+
+
+def _tally(kind):
+    with open(os.path.join(scratch(), 'cross-' + kind), 'a') as f:
+        f.write('x')
+
+
 def decide(pc, prop, timeout_s=300):
-    """is prop valid under pc?  returns ('unsat'|'sat'|'unknown', model, seconds)"""
+    """is prop valid under pc?  returns ('unsat'|'sat'|'unknown', model, seconds).
+    With VERIF_CROSSCHECK=1 (thorough tier) every UNSAT answer of z3 is re-decided by cvc5 on the SMT-LIB text of the same query
+    (60 s limit); a disagreement turns the answer into 'unknown' (inconclusive), a cvc5 time-out is only counted."""
     s = z3.Solver()
     s.set('timeout', int(timeout_s * 1000))
     s.add(*pc)
     s.add(z3.Not(prop))
     t = time.time()
     c = s.check()
+    if c == z3.unsat and os.environ.get('VERIF_CROSSCHECK') == '1' and CROSS['asked'] < int(os.environ.get('VERIF_CROSSCHECK_MAX', '400')):
+        import subprocess, tempfile
+        CROSS['asked'] += 1
+        try:
+            with tempfile.NamedTemporaryFile('w', suffix='.smt2', dir=scratch(), delete=False) as f:
+                f.write('(set-logic ALL)\n' + s.to_smt2())
+                path = f.name
+            p = subprocess.run(['cvc5', '--lang', 'smt2', '--tlimit=60000', path], capture_output=True, text=True, timeout=90)
+            os.unlink(path)
+            ans = p.stdout.strip().split('\n')[0] if p.stdout.strip() else ''
+            if ans == 'unsat' and '(error' not in p.stdout:
+                CROSS['agreed'] += 1; _tally('agreed')
+            elif ans == 'sat':
+                CROSS['disagreed'] += 1; _tally('disagreed')
+                return 'unknown', None, time.time() - t
+            else:
+                CROSS['no_answer'] += 1; _tally('no_answer')
+        except Exception:
+            CROSS['no_answer'] += 1; _tally('no_answer')
     return str(c), (s.model() if c == z3.sat else None), time.time() - t
 
 
